@@ -49,10 +49,26 @@ def is_cache_map(d):
 
 def _direct_cache_refs(u, f):
     out = []
+    # a local that cannot be re-seated (a reference, or a const pointer) bound to the map itself names the map
+    alias = {}
+    for x in walk(f):
+        if x.get('kind') == 'VarDecl' and kids(x) and 'init' in x and x.get('storageClass') != 'static':
+            t = (qtype(x) or '').rstrip()
+            if not (t.endswith('&') or t.endswith('*const') or t.endswith('* const')):
+                continue
+            i_ = peel(kids(x)[-1])
+            if i_ is not None and i_.get('kind') == 'UnaryOperator' and i_.get('opcode') == '*' and t.endswith('&'):
+                i_ = peel(kids(i_)[0])
+            if i_ is not None and i_.get('kind') == 'DeclRefExpr':
+                d_ = u.by_id.get((i_.get('referencedDecl') or {}).get('id'))
+                if d_ is not None and d_.get('kind') == 'VarDecl' and is_static_storage(d_) and is_cache_map(d_):
+                    alias[x['id']] = d_
     for (i, name, node, w) in var_refs(f):
         d = u.by_id.get(i)
         if d is not None and is_static_storage(d) and is_cache_map(d):
             out.append((d, node))
+        elif i in alias:
+            out.append((alias[i], node))
     return out
 
 
@@ -426,6 +442,8 @@ def run(ctx):
             # cache is known not to exist yet (map pointer == null)
             F = ctx.facts(f)
             mapkeys = set('%s#%s' % (d.get('name'), d.get('id')) for (d, _) in crefs)
+            mapkeys |= set('%s#%s' % ((n_.get('referencedDecl') or {}).get('name'), (n_.get('referencedDecl') or {}).get('id'))
+                           for (d, n_) in crefs if n_.get('kind') == 'DeclRefExpr')      # (locals bound to the map)
             cut_edges = []
             for n in g.live:
                 if n.kind == 'cond':
